@@ -29,13 +29,21 @@ def run(rep: Report, repo: Repo):
     except ModelError as e:
         rep.note(f'C18.maps: StilFile._maps is outside the evaluated subset ({e}); the structural rules C18.chain / C18.rank decide')
     interface_order(rep, repo, mod, maps_evaluated=evaluated)
-    extraction(rep, mod)
+    ext = False
+    try:
+        from checks import c18_eval
+        ext = c18_eval.evaluate(rep, repo, mod)
+    except ModelError as e:
+        rep.note(f'C18.extract: StilTransformer / StilFile.__init__ are outside the evaluated subset ({e}); the structural rules decide')
+    if not ext:
+        extraction(rep, mod)
     twins(rep, mod)
     if not evaluated:
         chain_orientation(rep, mod, Logic(repo))
-    chain_ends(rep, mod)
+    if not ext:
+        chain_ends(rep, mod)
     transition_table(rep, repo)
-    stil_grammar(rep, mod)
+    stil_grammar(rep, mod, extract_evaluated=ext)
     grammar.fresh_parser_rule(rep, 'C18.fresh', mod, 'StilTransformer')
     stateless_queries(rep, mod)
 
@@ -519,13 +527,15 @@ def transition_table(rep, repo):
         rep.violate('C18.transition', lg.mod, f, 'return out', 'mv_transition must return its out array', node=f)
 
 
-def stil_grammar(rep, mod):
+def stil_grammar(rep, mod, extract_evaluated=False):
     rep.rule('C18.grammar', 'STIL grammar <-> StilTransformer: arity, kind, exhaustiveness, no dead callback; "!" markers are kept in scan_cells')
     text, gnode = grammar.extract_grammar(mod)
     G = grammar.Grammar(text, 'stil')
     consumed = ('scan_in', 'scan_out', 'scan_cells', 'scan_length', 'scan_inversion', 'scan_master_clock', 'label', 'w', 'c', 'macro', 'ann')
     methods, handlers, n = grammar.check_agreement(rep, 'C18.grammar', mod, G, 'StilTransformer', consumed_as_tree=consumed)
     rep.floor('STIL callbacks analysed', n, 8)
+    if extract_evaluated:
+        return        # what the callbacks make of the trees is decided by the evaluated rule C18.extract
     # the Tree-consumed rules that scan_chain inspects by name must exist in the grammar
     sc = methods.get('scan_chain')
     names = [n.comparators[0].value for n in ast.walk(sc) if isinstance(n, ast.Compare) and cz(n.left) == 't.data' and isinstance(n.comparators[0], ast.Constant)]
